@@ -940,11 +940,11 @@ class Streams:
                     x = res[1]
                     if skip:
                         # the found points are a subsequence of the targets, in input order, each within tolerance
-                        k = 0; okseq = True; missed_inside = False
+                        k = 0
                         for row, i_ in zip(target, ins):
                             if k < len(x) and numpy.abs(x[k] - row).max() <= self.loc_tol(kw, gname): k += 1
-                            elif i_ is True: missed_inside = True
-                        if k != len(x) or missed_inside:
+                            elif i_ is True: self.c.count('locate:skipped-although-inside')   # allowed by the property (boundary points, round-off)
+                        if k != len(x):
                             self.fail(ob, 'locate-skip-missing-wrong', 'locate(skip_missing=True) returns points that are not the in-order subsequence of located targets', dict(replay, got=x.tolist()))
                         else: self.c.traces += 1
                         continue
